@@ -78,6 +78,7 @@ type outcome struct {
 	RSig  bool   // send_join / invite: R's signature verifies on the returned event
 	Same  bool   // ... and the returned event is the submitted one apart from signatures / unsigned
 	Note  string // what was wrong with the returned object, if anything
+	Again string // how a second call with the very same input objects differed, if it did
 	Err   string
 	Extra map[string]interface{}
 }
@@ -104,15 +105,18 @@ func remoteVersions(cls string, ver gmsl.RoomVersion) []gmsl.RoomVersion {
 	case "has":
 		return []gmsl.RoomVersion{"1", ver, "9"}
 	case "lacks":
-		out := []gmsl.RoomVersion{}
+		// other versions, and names that merely contain the room's version
+		out := []gmsl.RoomVersion{ver + ".1", "x" + ver, ""}
 		for _, v := range []gmsl.RoomVersion{"1", "2", "5"} {
 			if v != ver {
 				out = append(out, v)
 			}
 		}
 		return out
+	case "empty":
+		return []gmsl.RoomVersion{}
 	}
-	return nil
+	return nil // "none": no list at all
 }
 
 // ---------------------------------------------------------------------------------------------------
@@ -123,7 +127,7 @@ func (w *world) callMakeJoin(q *Msg) outcome {
 	in := gmsl.HandleMakeJoinInput{
 		Context:            context.Background(),
 		UserID:             mustUserID(user),
-		SenderID:           spec.SenderID(user),
+		SenderID:           spec.SenderID(w.sid(user)),
 		RoomID:             mustRoomID(w.roomID(q.Room)),
 		RoomVersion:        w.ver,
 		RemoteVersions:     remoteVersions(q.Vers, w.ver),
@@ -131,17 +135,19 @@ func (w *world) callMakeJoin(q *Msg) outcome {
 		LocalServerName:    servers["R"].name,
 		LocalServerInRoom:  w.sc.InRoom && q.Room == "main",
 		RoomQuerier:        restrictedQuerier{w},
-		UserIDQuerier:      userIDQuerier("ok"),
+		UserIDQuerier:      w.uidQuerier("ok"),
 		BuildEventTemplate: w.templateBuilder(),
 	}
 	resp, err := gmsl.HandleMakeJoin(in)
+	_, err2 := gmsl.HandleMakeJoin(in)
+	again := sameAgain(err, err2)
 	if err != nil {
-		return outcome{Res: "refused", Code: errClass(err), Err: err.Error()}
+		return outcome{Res: "refused", Code: errClass(err), Err: err.Error(), Again: again}
 	}
 	if resp == nil {
 		return outcome{Res: "refused", Code: "nil", Err: "nil response without error"}
 	}
-	o := outcome{Res: "ok"}
+	o := outcome{Res: "ok", Again: again}
 	t := w.projectTemplate(resp.JoinTemplateEvent)
 	o.Tmpl = &t
 	if resp.RoomVersion != w.ver {
@@ -155,26 +161,28 @@ func (w *world) callMakeLeave(q *Msg) outcome {
 	user := userOf(q.Usrv)
 	in := gmsl.HandleMakeLeaveInput{
 		UserID:            mustUserID(user),
-		SenderID:          spec.SenderID(user),
+		SenderID:          spec.SenderID(w.sid(user)),
 		RoomID:            mustRoomID(w.roomID(q.Room)),
 		RoomVersion:       w.ver,
 		RequestOrigin:     servers[q.Origin].name,
 		LocalServerName:   servers["R"].name,
 		LocalServerInRoom: w.sc.InRoom && q.Room == "main",
-		UserIDQuerier:     userIDQuerier("ok"),
+		UserIDQuerier:     w.uidQuerier("ok"),
 		BuildEventTemplate: func(p *gmsl.ProtoEvent) (gmsl.PDU, []gmsl.PDU, error) {
 			p.Version = w.impl // make_leave leaves the version to the builder
 			return w.templateBuilder()(p)
 		},
 	}
 	resp, err := gmsl.HandleMakeLeave(in)
+	_, err2 := gmsl.HandleMakeLeave(in)
+	again := sameAgain(err, err2)
 	if err != nil {
-		return outcome{Res: "refused", Code: errClass(err), Err: err.Error()}
+		return outcome{Res: "refused", Code: errClass(err), Err: err.Error(), Again: again}
 	}
 	if resp == nil {
 		return outcome{Res: "refused", Code: "nil", Err: "nil response without error"}
 	}
-	o := outcome{Res: "ok"}
+	o := outcome{Res: "ok", Again: again}
 	t := w.projectTemplate(resp.LeaveTemplateEvent)
 	o.Tmpl = &t
 	if resp.RoomVersion != w.ver {
@@ -214,7 +222,7 @@ func (w *world) concreteSendJoin(q *Msg) sendJoinCall {
 	if q.Eid != "match" {
 		c.eventID = w.anotherEventID()
 	}
-	if q.Ev.Sig == "expired" || q.Ev.Sig == "revoked" {
+	if keyClasses[q.Ev.Sig] {
 		c.expired = map[string]string{q.Ev.Ssrv: q.Ev.Sig}
 	}
 	return c
@@ -252,21 +260,31 @@ func (w *world) callSendJoin(c sendJoinCall) outcome {
 		LocalServerName:   R.name,
 		KeyID:             R.keyID,
 		PrivateKey:        R.priv,
-		Verifier:          keyRing(c.expired),
-		MembershipQuerier: membershipQuerier{w.sc.Mem},
+		Verifier:          keyRingFor(w.sc, c.expired),
+		MembershipQuerier: membershipQuerier{w.sc.Mem, w.sc.Env == "memq_err"},
 		UserIDQuerier:     userIDQuerier(w.sc.UQ),
 		StoreSenderIDFromPublicID: func(ctx context.Context, senderID spec.SenderID, userID string, id spec.RoomID) error {
 			return nil
 		},
 	}
+	if w.pseudo() {
+		// the resident server answers user queries from the mappings it stored
+		st := &pseudoStore{m: map[string]string{}}
+		in.StoreSenderIDFromPublicID = st.store
+		if w.sc.UQ == "ok" {
+			in.UserIDQuerier = st.query
+		}
+	}
 	resp, err := gmsl.HandleSendJoin(in)
+	_, err2 := gmsl.HandleSendJoin(in) // the second send_join of the same user with the same request
+	again := sameAgain(err, err2)
 	if err != nil {
-		return outcome{Res: "refused", Code: errClass(err), Err: err.Error()}
+		return outcome{Res: "refused", Code: errClass(err), Err: err.Error(), Again: again}
 	}
 	if resp == nil || resp.JoinEvent == nil {
 		return outcome{Res: "refused", Code: "nil", Err: "nil response without error"}
 	}
-	o := outcome{Res: "ok"}
+	o := outcome{Res: "ok", Again: again}
 	w.judgeReturned(&o, c.event, resp.JoinEvent.JSON())
 	o.Extra = map[string]interface{}{"returned": json.RawMessage(resp.JoinEvent.JSON())}
 	return o
@@ -294,7 +312,7 @@ type inviteCall struct {
 
 func (w *world) concreteInvite(q *Msg) inviteCall {
 	c := inviteCall{room: w.roomID(q.Room), event: w.concreteEvent(*q.Ev, t0.Add(2*time.Hour))}
-	if q.Ev.Sig == "expired" || q.Ev.Sig == "revoked" {
+	if keyClasses[q.Ev.Sig] {
 		c.expired = map[string]string{q.Ev.Ssrv: q.Ev.Sig}
 	}
 	return c
@@ -320,21 +338,23 @@ func (w *world) callInvite(c inviteCall) outcome {
 		InviteEvent:       ev,
 		KeyID:             R.keyID,
 		PrivateKey:        R.priv,
-		Verifier:          keyRing(c.expired),
-		RoomQuerier:       roomQuerier{w.sc.Known},
-		MembershipQuerier: membershipQuerier{w.sc.Mem},
+		Verifier:          keyRingFor(w.sc, c.expired),
+		RoomQuerier:       roomQuerier{w.sc.Known, w.sc.Env == "rq_err"},
+		MembershipQuerier: membershipQuerier{w.sc.Mem, w.sc.Env == "memq_err"},
 		StateQuerier:      stateQuerier{w},
 		UserIDQuerier:     userIDQuerier(w.sc.UQ),
 		StrippedState:     w.strippedState(),
 	}
 	out, err := gmsl.HandleInvite(context.Background(), in)
+	_, err2 := gmsl.HandleInvite(context.Background(), in) // the same invite delivered again (same event object)
+	again := sameAgain(err, err2)
 	if err != nil {
-		return outcome{Res: "refused", Code: errClass(err), Err: err.Error()}
+		return outcome{Res: "refused", Code: errClass(err), Err: err.Error(), Again: again}
 	}
 	if out == nil {
 		return outcome{Res: "refused", Code: "nil", Err: "nil event without error"}
 	}
-	o := outcome{Res: "ok"}
+	o := outcome{Res: "ok", Again: again}
 	w.judgeReturned(&o, ev.JSON(), out.JSON())
 	o.Extra = map[string]interface{}{"returned": json.RawMessage(out.JSON())}
 	return o
@@ -342,7 +362,11 @@ func (w *world) callInvite(c inviteCall) outcome {
 
 // strippedState is the invite_room_state of the request ("given": what an inviting server attaches).
 func (w *world) strippedState() []gmsl.InviteStrippedState {
-	if w.sc.Stripped != "given" {
+	switch w.sc.Stripped {
+	case "empty":
+		return []gmsl.InviteStrippedState{} // an empty list, as opposed to no list
+	case "given":
+	default:
 		return nil
 	}
 	out := []gmsl.InviteStrippedState{gmsl.NewInviteStrippedState(w.create)}
@@ -365,6 +389,10 @@ func (w *world) callInviteV3(q *Msg) outcome {
 	invitedSender := spec.SenderIDFromPseudoIDKey(userKey)
 	seed2 := sha256.Sum256([]byte("c15-roomkey-inviter"))
 	inviter := spec.SenderIDFromPseudoIDKey(ed25519.NewKeyFromSeed(seed2[:]))
+	if string(w.ver) != "org.matrix.msc4014" {
+		// room versions whose sender IDs are user IDs: the endpoint still completes and signs the template
+		invitedSender, inviter = spec.SenderID(userInvitee), spec.SenderID(userOf("J"))
+	}
 	proto := gmsl.ProtoEvent{SenderID: string(inviter), RoomID: w.roomID(q.Proom), Type: spec.MRoomMember, StateKey: strp(""),
 		PrevEvents: []string{w.last}, AuthEvents: w.authFor(w.create, w.pl, w.jr), Depth: w.depth + 1, Content: []byte(`{"membership":"invite"}`)}
 	in := gmsl.HandleInviteV3Input{
@@ -376,8 +404,8 @@ func (w *world) callInviteV3(q *Msg) outcome {
 			KeyID:             R.keyID,
 			PrivateKey:        R.priv,
 			Verifier:          keyRing(nil),
-			RoomQuerier:       roomQuerier{w.sc.Known},
-			MembershipQuerier: membershipQuerier{w.sc.Mem},
+			RoomQuerier:       roomQuerier{w.sc.Known, w.sc.Env == "rq_err"},
+			MembershipQuerier: membershipQuerier{w.sc.Mem, w.sc.Env == "memq_err"},
 			StateQuerier:      stateQuerier{w},
 			UserIDQuerier:     userIDQuerier(w.sc.UQ),
 			StrippedState:     w.strippedState(),
@@ -408,6 +436,14 @@ func (w *world) callInviteV3(q *Msg) outcome {
 	return o
 }
 
+// sameAgain compares the outcomes of two calls with the very same input objects.
+func sameAgain(err1, err2 error) string {
+	if (err1 == nil) != (err2 == nil) || errClass(err1) != errClass(err2) {
+		return fmt.Sprintf("first call: %q, second call with the same input: %q", errClass(err1), errClass(err2))
+	}
+	return ""
+}
+
 // ---------------------------------------------------------------------------------------------------
 // comparison
 
@@ -427,6 +463,9 @@ func whyKey(why []string) string {
 // compareStep compares one handler outcome with the history entry the specification derived.
 // Returns "" when they agree, otherwise (key suffix, explanation).
 func compareStep(h *Hist, o outcome) (string, string) {
+	if o.Again != "" {
+		return h.A + "/second-call-with-the-same-input-differs", h.A + ": " + o.Again
+	}
 	if o.Res != h.Res {
 		if h.Res == "refused" {
 			return fmt.Sprintf("%s/accepted-but-must-refuse/failing=%s", h.A, whyKey(h.Why)),
@@ -499,7 +538,11 @@ func replayProduct(raw json.RawMessage) hx.Result {
 			o = w.callMakeLeave(h.Req)
 		case "SendJoinResp":
 			w := newWorld(r.Sc, userOf(h.Req.Ev.Ssrv))
-			o = w.callSendJoin(w.concreteSendJoin(h.Req))
+			if w.pseudo() {
+				o = w.callSendJoin(w.concretePseudoSendJoin(h.Req))
+			} else {
+				o = w.callSendJoin(w.concreteSendJoin(h.Req))
+			}
 		case "InviteResp":
 			w := newWorld(r.Sc, userInvitee)
 			o = w.callInvite(w.concreteInvite(h.Req))
